@@ -29,6 +29,8 @@ Reset == Ev("reset") /\ published' = 0 /\ lastID' = 0 /\ recv' = <<>> /\ total' 
 
 \* Publish(i) is called: events are published in order 1, 2, ...
 Pub == Ev("pub") /\ E.i = published + 1 /\ published' = E.i /\ UNCHANGED <<lastID, recv, total>>
+\* ... and returns: a running server takes every well-formed message, however its publisher built it (a failed Publish is a lost event)
+PubRet == Ev("pubret") /\ E.ok /\ UNCHANGED <<published, lastID, recv, total>>
 
 \* a callback got an event: it was published, it is the successor of the previous one (no gap, no duplicate,
 \* no reordering) and carries the published ID, type and data (compared by the driver: E.same)
@@ -56,7 +58,7 @@ End ==
     /\ published = total /\ recv # <<>> /\ recv[Len(recv)] = total
     /\ UNCHANGED <<published, lastID, recv, total>>
 
-Next == Reset \/ Pub \/ ClientEvent \/ Request \/ Cut \/ Retry \/ End
+Next == Reset \/ Pub \/ PubRet \/ ClientEvent \/ Request \/ Cut \/ Retry \/ End
 Spec == Init /\ [][Next]_vars
 
 NoGapNoDup == \A i \in 1..(Len(recv) - 1) : recv[i + 1] = recv[i] + 1
